@@ -8,18 +8,18 @@ EXTENDS TraceIO, Session
 
 Peers == {"c0", "c1", "c2", "c3", "x0", "x1", "x2", "unknown"}
 Placeholder == <<-2, -2>>       \* nonce the server is about to draw; bound when its SYN-ACK is seen on the wire
-NoClient == [st |-> "Idle", nonce |-> NoNonce, remote |-> NoNonce, at |-> 0, left |-> 0, deadline |-> 0, disc |-> "none", T |-> 0]
+NoClient == [st |-> "Idle", nonce |-> NoNonce, remote |-> NoNonce, at |-> 0, left |-> 0, deadline |-> 0, disc |-> "none", T |-> 0, srate |-> 0, pAlloc |-> 0, pRate |-> 0]
 
-VARIABLES cl, sv, cfg, inC, inS, evBuf, expOut, nsteps, mism
-vars == <<l, cl, sv, cfg, inC, inS, evBuf, expOut, nsteps, mism>>
+VARIABLES cl, sv, cfg, inC, inS, evBuf, limBuf, expOut, nsteps, mism
+vars == <<l, cl, sv, cfg, inC, inS, evBuf, limBuf, expOut, nsteps, mism>>
 Eps == Peers \cup {"s"}
 
 Nonce(r, f, g) == <<r[f], r[g]>>
 Flag(why) == IF Cardinality(mism) < 100 THEN {<<"CONF", why, l>>} ELSE {}
 
 Init == /\ l = 1 /\ cl = [p \in Peers |-> NoClient] /\ sv = [p \in Peers |-> NoEntry]
-        /\ cfg = [maxActive |-> 1, maxTotal |-> 1, herr |-> FALSE, T |-> 20000, psize |-> 0, alloc |-> 0]
-        /\ inC = [p \in Peers |-> <<>>] /\ inS = <<>> /\ evBuf = [e \in Eps |-> <<>>] /\ expOut = [e \in Eps |-> <<>>] /\ nsteps = 0 /\ mism = {}
+        /\ cfg = [maxActive |-> 1, maxTotal |-> 1, herr |-> FALSE, T |-> 20000, psize |-> 0, alloc |-> 0, rate |-> 0, rrate |-> 0]
+        /\ inC = [p \in Peers |-> <<>>] /\ inS = <<>> /\ evBuf = [e \in Eps |-> <<>>] /\ limBuf = [e \in Eps |-> <<>>] /\ expOut = [e \in Eps |-> <<>>] /\ nsteps = 0 /\ mism = {}
 
 Leftover == \E e \in Eps : expOut[e] # <<>>
 
@@ -27,16 +27,17 @@ Reset ==
     /\ IsEvent("Reset")
     /\ cl' = [p \in Peers |-> NoClient] /\ sv' = [p \in Peers |-> NoEntry]
     /\ cfg' = [maxActive |-> Cur.max_active, maxTotal |-> Cur.max_total, herr |-> Cur.herr, T |-> Cur.server.timeout,
-               psize |-> Cur.server.max_packet_size, alloc |-> Cur.server.max_receive_alloc]
-    /\ inC' = [p \in Peers |-> <<>>] /\ inS' = <<>> /\ evBuf' = [e \in Eps |-> <<>>] /\ expOut' = [e \in Eps |-> <<>>]
+               psize |-> Cur.server.max_packet_size, alloc |-> Cur.server.max_receive_alloc,
+               rate |-> Cur.server.max_send_rate, rrate |-> Cur.server.max_receive_rate]
+    /\ inC' = [p \in Peers |-> <<>>] /\ inS' = <<>> /\ evBuf' = [e \in Eps |-> <<>>] /\ limBuf' = [e \in Eps |-> <<>>] /\ expOut' = [e \in Eps |-> <<>>]
     /\ mism' = mism \cup (IF Leftover THEN Flag("expected-frame-never-sent") ELSE {})
     /\ UNCHANGED nsteps
 
 AppConnect ==
     /\ IsEvent("Connect")
-    /\ cl' = [cl EXCEPT ![Cur.ep] = ClientInit(NoNonce, Cur.t, Cur.timeout)]
+    /\ cl' = [cl EXCEPT ![Cur.ep] = ClientInitL(NoNonce, Cur.t, Cur.timeout, Cur.max_send_rate)]
     /\ expOut' = [expOut EXCEPT ![Cur.ep] = <<Syn(Placeholder)>>]          \* Client::connect sends the first SYN
-    /\ UNCHANGED <<sv, cfg, inC, inS, evBuf, nsteps, mism>>
+    /\ UNCHANGED <<sv, cfg, inC, inS, evBuf, limBuf, nsteps, mism>>
 
 App ==
     /\ IsEvent("App")
@@ -50,12 +51,13 @@ App ==
                        [] Cur.call = "disconnect_now" -> [cl EXCEPT ![Cur.ep] = ClientDisconnect(@, TRUE)]
                        [] OTHER -> cl
             /\ UNCHANGED sv
-    /\ UNCHANGED <<cfg, inC, inS, evBuf, expOut, nsteps, mism>>
+    /\ UNCHANGED <<cfg, inC, inS, evBuf, limBuf, expOut, nsteps, mism>>
 
 (* abstract view of a datagram *)
 Abs(r) ==
-    CASE r.type = "SYN" -> [ty |-> "SYN", nonce |-> Nonce(r, "nonce", "nonce_lsb"), version |-> r.version, psize |-> r.max_packet_size, alloc |-> r.max_receive_alloc]
-      [] r.type = "SYNACK" -> SynAck(Nonce(r, "nonce_ack", "nonce_ack_lsb"), Nonce(r, "nonce", "nonce_lsb"))
+    CASE r.type = "SYN" -> [ty |-> "SYN", nonce |-> Nonce(r, "nonce", "nonce_lsb"), version |-> r.version, psize |-> r.max_packet_size, alloc |-> r.max_receive_alloc, rate |-> r.max_receive_rate]
+      [] r.type = "SYNACK" -> [ty |-> "SYNACK", nonce_ack |-> Nonce(r, "nonce_ack", "nonce_ack_lsb"), nonce |-> Nonce(r, "nonce", "nonce_lsb"),
+                               rate |-> r.max_receive_rate, psize |-> r.max_packet_size, alloc |-> r.max_receive_alloc]
       [] r.type = "ACK" -> Ack(Nonce(r, "nonce_ack", "nonce_ack_lsb"))
       [] r.type = "ERR" -> Err(Nonce(r, "nonce_ack", "nonce_ack_lsb"), r.err)
       [] r.type = "DISC" -> Disc
@@ -72,14 +74,24 @@ Fwd ==
             /\ UNCHANGED inC
        ELSE /\ inC' = IF Cur.type = "garbage" \/ Cur.to \notin Peers THEN inC ELSE [inC EXCEPT ![Cur.to] = Append(@, Abs(Cur))]
             /\ UNCHANGED inS
-    /\ UNCHANGED <<cl, sv, cfg, evBuf, expOut, nsteps, mism>>
+    /\ UNCHANGED <<cl, sv, cfg, evBuf, limBuf, expOut, nsteps, mism>>
 
 Event ==
     /\ IsEvent("Event")
     /\ evBuf' = IF Cur.kind = "Receive" THEN evBuf
                 ELSE [evBuf EXCEPT ![Cur.ep] = Append(@, IF Cur.ep = "s" THEN <<Cur.peer, IF Cur.kind = "Error" THEN ErrName(Cur.err) ELSE Cur.kind>>
                                                           ELSE (IF Cur.kind = "Error" THEN ErrName(Cur.err) ELSE Cur.kind))]
-    /\ UNCHANGED <<cl, sv, cfg, inC, inS, expOut, nsteps, mism>>
+    /\ UNCHANGED <<cl, sv, cfg, inC, inS, limBuf, expOut, nsteps, mism>>
+
+(* the limits an endpoint holds for the connection it has just reported (cfg(uflow_verif) accessor), compared at the end of the
+   step with what the model's endpoint took from the handshake frame it accepted *)
+Limits ==
+    /\ IsEvent("Limits")
+    /\ limBuf' = [limBuf EXCEPT ![Cur.ep] = Append(@, [peer |-> Cur.peer, tx_alloc |-> Cur.tx_alloc, rate |-> Cur.rate])]
+    /\ UNCHANGED <<cl, sv, cfg, inC, inS, evBuf, expOut, nsteps, mism>>
+
+Clip(n) == IF n > 2000000000 THEN 2000000000 ELSE n
+ClipL(x) == [tx_alloc |-> Clip(x.tx_alloc), rate |-> x.rate]
 
 (* does the endpoint put a DISCONNECT on the wire right after this step? (oracle for is_send_pending) *)
 RECURSIVE DiscFollows(_, _, _)
@@ -101,14 +113,21 @@ StepEnd ==
                /\ expOut' = [expOut EXCEPT !["s"] = r.out]
                /\ mism' = mism \cup (IF ~sameEv THEN Flag("server-events-differ-from-model") ELSE {})
                                \cup (IF expOut["s"] # <<>> THEN Flag("server-frame-expected-by-model-not-sent") ELSE {})
+                               \cup (IF \E i \in 1..Len(limBuf["s"]) : LET x == limBuf["s"][i] IN
+                                         x.peer \in Peers /\ r.s[x.peer].st = "Active" /\ ClipL(SLimits(r.s[x.peer], cfg)) # [tx_alloc |-> x.tx_alloc, rate |-> x.rate]
+                                     THEN Flag("server-limits-differ-from-model") ELSE {})
                /\ UNCHANGED <<cl, inC>>
        ELSE LET r == ClientStep(cl[e], inC[e], t, DiscFollows(l + 1, e, ""))
             IN /\ cl' = [cl EXCEPT ![e] = r.c] /\ inC' = [inC EXCEPT ![e] = <<>>]
                /\ expOut' = [expOut EXCEPT ![e] = r.out]
                /\ mism' = mism \cup (IF r.ev # evBuf[e] THEN Flag("client-events-differ-from-model") ELSE {})
                                \cup (IF expOut[e] # <<>> THEN Flag("client-frame-expected-by-model-not-sent") ELSE {})
+                               \cup (IF \E i \in 1..Len(limBuf[e]) : LET x == limBuf[e][i] IN
+                                         r.c.st = "Active" /\ ClipL(CLimits(r.c)) # [tx_alloc |-> x.tx_alloc, rate |-> x.rate]
+                                     THEN Flag("client-limits-differ-from-model") ELSE {})
                /\ UNCHANGED <<sv, inS>>
     /\ evBuf' = [evBuf EXCEPT ![Cur.ep] = <<>>]
+    /\ limBuf' = [limBuf EXCEPT ![Cur.ep] = <<>>]
     /\ nsteps' = nsteps + 1
     /\ UNCHANGED cfg
 
@@ -128,6 +147,7 @@ Wire ==
                     ELSE LET i == CHOOSE x \in I : \A y \in I : x <= y
                              want == q[i][2]
                              bind == want.ty = "SYNACK" /\ want.nonce = Placeholder /\ got.ty = "SYNACK" /\ got.nonce_ack = want.nonce_ack
+                                     /\ got.rate = want.rate /\ got.psize = want.psize /\ got.alloc = want.alloc        \* a server advertises its own limits
                              ok == bind \/ want = got
                          IN /\ expOut' = [expOut EXCEPT ![e] = SubSeq(q, 1, i - 1) \o SubSeq(q, i + 1, Len(q))]
                             /\ sv' = IF bind THEN [sv EXCEPT ![a].local = got.nonce] ELSE sv
@@ -142,13 +162,13 @@ Wire ==
                             /\ cl' = IF bind THEN [cl EXCEPT ![e].nonce = got.nonce] ELSE cl
                             /\ mism' = mism \cup (IF ~ok THEN Flag("client-frame-differs-from-model") ELSE {})
                             /\ UNCHANGED sv
-    /\ UNCHANGED <<cfg, inC, inS, evBuf, nsteps>>
+    /\ UNCHANGED <<cfg, inC, inS, evBuf, limBuf, nsteps>>
 
 Skip ==
     /\ IsOneOf({"End", "FaultsEnd", "Net", "Ret", "Step"})
-    /\ UNCHANGED <<cl, sv, cfg, inC, inS, evBuf, expOut, nsteps, mism>>
+    /\ UNCHANGED <<cl, sv, cfg, inC, inS, evBuf, limBuf, expOut, nsteps, mism>>
 
-Next == Reset \/ AppConnect \/ App \/ Fwd \/ Event \/ StepEnd \/ Wire \/ Skip
+Next == Reset \/ AppConnect \/ App \/ Fwd \/ Event \/ Limits \/ StepEnd \/ Wire \/ Skip
 Spec == Init /\ [][Next]_vars
 
 AtEnd == l = NRec + 1
